@@ -12,7 +12,9 @@ SPEC = dict(
                 "by prefix; get(head) = rows with that key column; DeepJoin = relational equi-join on the key columns; cartesian product "
                 "= all concatenations; force keeps the rows; multiset storages: insert/merge_node are multiset add/union (Perm); COLT forest: "
                 "ColtGet::get (force_drain of the leaf under the cursor, merge_node into the next taller trie, or_default children in the "
-                "taller tries) preserves the multiset of rows of the forest for every chain of gets from the root on every forest; "
+                "taller tries) preserves the multiset of rows of the forest for every chain of gets from the root on every forest, and on a well-formed "
+                "forest the cursor reached by the chain holds exactly the rows that carry the path in their first columns; the changed "
+                "flag of merge is exact under the invariant; the deep join's output is well formed; "
                 "== <-> same rows and partial_cmp = inclusion order (Equal/Less/Greater/None) "
                 "under the invariant Good (well-formed + no empty child + no forced leaf), which default/new_from/insert/merge are proved "
                 "to establish and keep. Refuted on concrete witnesses (and reproduced on the real code): without the invariant ==/partial_cmp "
@@ -25,8 +27,8 @@ SPEC = dict(
     level_note=("Trusted: Lean kernel; HashMap modelled as an association list with distinct keys, leaf storages modelled as lists "
                 "(hash set: no duplicates; counted/column: multiset, iteration order not observed); the Rust variadic type machinery "
                 "(SplitBySuffix, column of a node = its depth) is mirrored by an explicit depth parameter, exercised by correspondence; "
-                "for COLT only the rows-preservation of get chains is a theorem — that the cursor holds exactly the rows with the path as prefix "
-                "is checked on the real code by the oracle (colt-cursor-rows) and by correspondence, not proved; harness/differ are our code."),
+                "the COLT cursor is modelled as (forest, path) — the Rust cursor is a variadic of &mut into the forest; its printing through "
+                "nodeAt is part of the driver, the theorem is about subRows of the same nodes; harness/differ are our code."),
     trusted_base=["std::collections::HashMap modelled as an association list with distinct keys; iteration order sorted before comparison",
                   "variadics type-level column selection (SplitBySuffix/Split) modelled by an explicit depth index; exercised, not proved",
                   "leaf storages: the C10 collections, abstracted to set / multiset of rows"],
